@@ -559,6 +559,195 @@ EVAL_CHECK = ("fun c : aexpr * qexpr * result val * cres => let '(a, q, n, s) :=
     "| _, _ => true end")
 
 
+# ---- history: sequences of conversions in ONE process ----------------------------------------------------
+# The model is stateless: the result of every call must be what the model gives for that call alone, whatever was
+# converted before.  A sequence = definitions of user units (name -> source) + steps; every object is rebuilt from
+# source strings, so a sequence can be re-run in a fresh interpreter (minimisation, replay).
+
+FAMILY_BASES = [("u.kilogram", "u.day"), ("u.meter", "u.second"), ("u.second", "u.meter"), ("u.joule", "u.hour"), ("u.liter", "u.minute"),
+    ("u.newton", "u.meter**2"), ("u.gram", "u.centimeter**3")]
+LABELS = ["ton", "ft", "cup", "barrel", "unit", "X", "stone", "league"]
+
+
+def seq_namespace(defs):
+    ns = dict(unitgen.namespace())
+    for name, src in defs:
+        ns[name] = eval(src, ns)  # pylint: disable=eval-used
+    return ns
+
+
+def gen_sequence(rng, seqno):
+    """(defs, steps).  step = {"op": convert|si|float|eval, "value": src, "target": src|None}"""
+    base, per = rng.choice(FAMILY_BASES)
+    fam = rng.choice(["label", "close", "mixed"])
+    mant = rng.randrange(1000, 9999)
+    expo = rng.choice([1, 10, 100, 1000, 10000])
+    defs = []
+    nunits = rng.choice([2, 2, 3])
+    label = f"{rng.choice(LABELS)}{seqno}"
+    for i in range(nunits):
+        if fam == "label" or (fam == "mixed" and i < 2):
+            # (a) different units that share a display_symbol
+            sc = f"Rational({rng.randrange(1000, 99999)},{rng.choice([1, 10, 100, 1000])})"
+            defs.append((f"U{i}", f"Quantity({sc}*{base}, display_symbol='{label}')"))
+        else:
+            # (b) anonymous units whose SI values agree to 3-5 significant digits but differ
+            k = rng.choice([10, 100, 1000])
+            sc = f"Rational({mant * k + (i * rng.randrange(1, 5) if i else 0)},{expo * k})"
+            defs.append((f"U{i}", f"Quantity({sc}*{base})"))
+    # compound target expressions; (c) the same expression object is reused through its name
+    shapes = ["{U}/(" + per + ")", "{U}*(" + per + ")", "{U}**2", "2*{U}", "{U}/u.second**2", "{U}"]
+    shape = rng.choice(shapes[:5])
+    for i in range(nunits):
+        defs.append((f"T{i}", shape.format(U=f"U{i}")))
+        defs.append((f"QT{i}", f"Quantity(T{i})"))            # (d) the same unit as a Quantity object
+    vmag = rng.choice(["5000", "100", "Rational(7,3)", "1", "Rational(123456,1000)"])
+    defs.append(("V", f"Quantity(({vmag})*" + shape.format(U=f"({base})") + ")"))
+    steps = []
+    order = list(range(nunits))
+    rng.shuffle(order)
+    for i in order + [rng.randrange(nunits) for _ in range(rng.choice([1, 2, 3]))]:
+        r = rng.random()
+        if r < 0.55:
+            steps.append({"op": "convert", "value": "V", "target": f"T{i}"})
+        elif r < 0.7:
+            steps.append({"op": "convert", "value": "V", "target": f"QT{i}"})
+        elif r < 0.8:
+            steps.append({"op": "convert", "value": f"3*T{rng.randrange(nunits)}", "target": f"T{i}"})     # raw value, raw target
+        elif r < 0.87:
+            steps.append({"op": "si", "value": rng.choice([f"T{i}", f"QT{i}", f"Quantity(2*T{i})"]), "target": None})
+        elif r < 0.94:
+            steps.append({"op": "eval", "value": rng.choice([f"QT{i} + 2*QT{rng.randrange(nunits)}", f"U{i}*U{rng.randrange(nunits)}", f"3*QT{i}"]),
+                "target": None})
+        else:
+            steps.append({"op": "float", "value": f"Quantity(T{i}/T{rng.randrange(nunits)})", "target": None})
+    # control: library units only
+    if rng.random() < 0.5:
+        steps.insert(rng.randrange(len(steps) + 1), {"op": "convert", "value": "V", "target": shape.format(U=f"({base})")})
+    return defs, steps
+
+
+def run_step(ns, step):
+    """-> (literal kind, literal, observation, spec verdict, detail)"""
+    from symplyphysics import convert_to, convert_to_si, convert_to_float, Quantity  # pylint: disable=import-outside-toplevel
+    from symplyphysics.core.convert import evaluate_expression  # pylint: disable=import-outside-toplevel
+    value = eval(step["value"], dict(ns))  # pylint: disable=eval-used
+    op = step["op"]
+    if op == "convert":
+        target = eval(step["target"], dict(ns))  # pylint: disable=eval-used
+        exact = _exactness(value, target)
+        obs = run_val(convert_to, value, target)
+        lit = f"({carg_lit(value)}, {carg_lit(target)}, {'true' if exact else 'false'}, {rval_lit(obs)})"
+        return "convert", lit, obs, spec_convert(value, target, obs), _obs_json(obs)
+    if op == "si":
+        obs = run_val(convert_to_si, value)
+        lit = f"(inr (true, {carg_lit(value)}, {'true' if _exactness(value) else 'false'}, {rval_lit(obs)}))"
+        return "si", lit, obs, spec_si(value, obs), _obs_json(obs)
+    if op == "float":
+        try:
+            fl = convert_to_float(value)
+            obs = ("ok", ("Q", Fraction(fl)), fl)
+            want = float(sympy.N(qx.pyvalue(value), 30))
+            ok = abs(fl - want) <= 1e-12 * abs(want)
+        except Exception as e:  # pylint: disable=broad-except
+            obs = ("err", qx.err_class(e), f"{type(e).__name__}: {e}"[:200])
+            ok = None
+        lit = f"(inr (false, {carg_lit(value)}, false, {rval_lit(obs)}))"
+        return "si", lit, obs, ok, _obs_json(obs)
+    expr = value
+    obs_n = run_val(evaluate_expression, expr)
+    obs_q = qx.cres_of_impl(lambda e=expr: (lambda q: (q.scale_factor, q.dimension))(Quantity(e)))
+    lit = f"({aexpr_lit(expr)}, {qx.qexpr_lit(expr)}, {rval_lit(obs_n)}, {qx.cres_lit(obs_q)})"
+    ok, detail = spec_evaluate(expr)
+    return "eval", lit, obs_n, ok, {"evaluate_expression": _obs_json(obs_n), "detail": detail}
+
+
+def run_sequence(defs, steps):
+    ns = seq_namespace(defs)
+    return [run_step(ns, st) for st in steps]
+
+
+def history_subprocess_main():
+    """fresh interpreter: stdin = {"defs": [...], "steps": [...]}; stdout = [{"spec": .., "obs": ..}, ...]"""
+    import json, sys  # pylint: disable=import-outside-toplevel,multiple-imports
+    job = json.load(sys.stdin)
+    out = []
+    for _k, _lit, _obs, ok, detail in run_sequence([tuple(d) for d in job["defs"]], job["steps"]):
+        out.append({"spec": ok, "obs": detail})
+    print("VPJSON" + json.dumps(out, default=str))
+
+
+def run_fresh(defs, steps):
+    """run a sequence in a fresh interpreter against the same tree; None when it could not be run"""
+    import json, os, subprocess  # pylint: disable=import-outside-toplevel,multiple-imports
+    from vp import common  # pylint: disable=import-outside-toplevel
+    env = dict(os.environ)
+    env["PYTHONPATH"] = f"{common.REPO}:{common.VERIF / 'harness'}"
+    p = subprocess.run([common.PYTHON, "-c", "import props.c07 as m; m.history_subprocess_main()"], input=json.dumps({"defs": defs, "steps": steps}),
+        capture_output=True, text=True, env=env, timeout=300, check=False)
+    for line in p.stdout.splitlines():
+        if line.startswith("VPJSON"):
+            return json.loads(line[6:])
+    return None
+
+
+def used_defs(defs, steps):
+    """the definitions the steps (transitively) mention, in order"""
+    import re  # pylint: disable=import-outside-toplevel
+    need = set()
+    text = " ".join((st["value"] or "") + " " + (st["target"] or "") for st in steps)
+    for name, src in reversed(defs):
+        if re.search(rf"\b{name}\b", text):
+            need.add(name)
+            text += " " + src
+    return [(n, sc) for n, sc in defs if n in need]
+
+
+def minimise_history(defs, steps, k):
+    """smallest sub-sequence ending in step k (re-run in fresh interpreters) on which step k still violates the
+    specification; ([], alone_ok) if step k violates it on its own (then it is not a history effect)"""
+    alone = run_fresh(used_defs(defs, [steps[k]]), [steps[k]])
+    if alone is not None and alone[-1]["spec"] is False:
+        return [k], False
+    from concurrent.futures import ThreadPoolExecutor  # pylint: disable=import-outside-toplevel
+    cands = [[j, k] for j in range(k)]
+    with ThreadPoolExecutor(max_workers=8) as ex:
+        res = list(ex.map(lambda c: run_fresh(used_defs(defs, [steps[i] for i in c]), [steps[i] for i in c]), cands))
+    for c, r in zip(cands, res):
+        if r is not None and r[-1]["spec"] is False:
+            return c, True
+    full = list(range(k + 1))
+    r = run_fresh(defs, [steps[i] for i in full])
+    return full, bool(r is not None and r[-1]["spec"] is False)
+
+
+def stream_history(ctx, nseq):
+    rng = ctx.rng
+    seqs, flat = [], {"convert": [], "si": [], "eval": []}
+    seen_keys = set()
+    tries = 0
+    while len(seqs) < nseq and tries < 5 * nseq:
+        tries += 1
+        defs, steps = gen_sequence(rng, len(seqs))
+        try:
+            ns = seq_namespace(defs)
+            keys = {str(v) for n, v in ns.items() if n.startswith(("T", "U")) and n[1:].isdigit()}
+        except Exception:  # pylint: disable=broad-except
+            continue
+        if keys & seen_keys:
+            continue          # printed forms must be new, so that a collision can only come from inside the sequence
+        seen_keys |= keys
+        try:
+            results = [run_step(ns, st) for st in steps]
+        except qx.Unsupported:
+            continue
+        si = len(seqs)
+        seqs.append({"defs": defs, "steps": steps, "results": results})
+        for k, (kind, lit, _obs, _ok, _d) in enumerate(results):
+            flat[kind].append((si, k, lit))
+    return seqs, flat
+
+
 # ---- Celsius -------------------------------------------------------------------------------------
 
 def stream_celsius(ctx, n, off_fr):
@@ -821,6 +1010,40 @@ def run(ctx):
         "prefixes": len(py["prefix_rows"]), "celsius_offset": str(py["offset"])}
 
     hist = {}
+    # ---- history stream FIRST (before any other call of the implementation in this process) --------------------
+    seqs, flat = stream_history(ctx, ctx.pick(150, 1200))
+    bad_h = []
+    for kind, check, ctype in (("convert", "fun c : carg * carg * bool * result val => let '(a, b, ex, o) := c in rval_close ex (convert_to a b) o",
+            "carg * carg * bool * result val"), ("si", SI_CHECK, "(dim * cres) + (bool * carg * bool * result val)"),
+            ("eval", EVAL_CHECK, "aexpr * qexpr * result val * cres")):
+        if flat[kind]:
+            for i in coqrun.eval_cases(ctx, f"history_{kind}", pre, [x[2] for x in flat[kind]], check, case_type=ctype):
+                bad_h.append(flat[kind][i][:2])
+    n_steps = sum(len(q["steps"]) for q in seqs)
+    reported = set()
+    for si, k in sorted(bad_h)[:6]:
+        if si in reported:
+            continue
+        reported.add(si)
+        q = seqs[si]
+        kind, lit, _obs, ok, detail = q["results"][k]
+        idx, reproduced = minimise_history(q["defs"], q["steps"], k)
+        sub = [q["steps"][i] for i in idx]
+        defs = used_defs(q["defs"], sub)
+        history_effect = len(idx) > 1 and reproduced
+        what = (f"the result of step {len(sub)} depends on the calls made before it" if history_effect else "model and implementation disagree on a call")
+        ctx.violation(f"C07:history:{defs}:{sub}", f"{what}: {sub[-1]} -> {detail} after {sub[:-1]} with {dict(defs)}",
+            {"kind": "disagreement", "stream": "history", "defs": [list(d) for d in defs], "steps": sub, "gallina_last_step": lit,
+             "observed": detail, "expected": "every call returns what it returns in a fresh process: n with n * target = value (stateless model)",
+             "reproduced_in_fresh_interpreter": reproduced,
+             "theorem_or_tie": "convert_spec / convert_compose + correspondence on call sequences (the model has no state)"},
+            found_input=(ok is False) or reproduced)
+    ctx.evaluated(n_steps, len({x[2] for v in flat.values() for x in v}))
+    ctx.coverage["history_sequences"] = len(seqs)
+    ctx.coverage["history_steps"] = n_steps
+    if seqs:
+        ctx.sample({"stream": "history", "defs": seqs[0]["defs"][:4], "steps": seqs[0]["steps"][:3]})
+    n_bad_hist = len(bad_h)
     # ---- convert_to ----------------------------------------------------------------------------
     cases, h = stream_convert(ctx, ctx.pick(2500, 20000))
     hist.update(h)
@@ -948,9 +1171,12 @@ def run(ctx):
     # ---- regression guard for the absolute-zero repair (d2bd6de): the concrete input, reported by name ----------
     replay_absolute_zero(ctx, py["offset"])
 
-    ctx.coverage["disagreements"] = n_bad
+    ctx.coverage["disagreements"] = n_bad + n_bad_hist
     ctx.coverage["verdict_histogram"] = dict(sorted(hist.items()))
-    ctx.coverage["rule"] = ("convert: seeded (value, target) over 23 dimension classes x their spellings (base, derived, SymPy-prefixed, "
+    ctx.coverage["rule"] = ("history: seeded sequences of 3-7 calls in one process (convert_to / convert_to_si / convert_to_float / "
+        "evaluate_expression) whose targets are compound expressions over user-defined units sharing a display_symbol, units agreeing to 3-5 "
+        "significant digits, the same expression object reused, Quantity vs raw targets, each compared with the stateless model; "
+        "convert: seeded (value, target) over 23 dimension classes x their spellings (base, derived, SymPy-prefixed, "
         "symplyphysics-prefixed, non-decimal units), magnitudes exact / dyadic / float / 0, +-oo, nan, as Quantity objects and as raw "
         "expressions, 60% same class / 40% other class, angle factors, zero / infinite targets; si: random integer and half-integer "
         "dimension vectors, SI-unit round trips, angle-bearing dimensions, dimension_to_si_unit itself, convert_to_float; compose: triples "
@@ -1019,6 +1245,18 @@ def replay(ctx, rep):
         print("leaves:", rep["leaves"], "\nrecipe:", rep["recipe"], "\nexpression:", expr)
         print("N * scale(SI unit) = S ?", ok, "--", detail)
         rc = 1 if ok is False else 0
+    elif stream == "history":
+        defs = [tuple(d) for d in rep["defs"]]
+        print("definitions:")
+        for n, sc in defs:
+            print(f"  {n} = {sc}")
+        res = run_sequence(defs, rep["steps"])
+        for st, (_k, _lit, _obs, ok, detail) in zip(rep["steps"], res):
+            print(f"  {st['op']}({st['value']}{', ' + st['target'] if st['target'] else ''}) -> {detail}; specification predicate: {ok}")
+        alone = run_fresh([list(d) for d in used_defs(defs, rep["steps"][-1:])], rep["steps"][-1:])
+        if alone:
+            print(f"  the last call alone, in a fresh interpreter -> {alone[-1]['obs']}; specification predicate: {alone[-1]['spec']}")
+        rc = 1 if res[-1][3] is False else 0
     elif stream in ("celsius", "celsius-float"):
         from symplyphysics.core.symbols.celsius import Celsius, to_kelvin, from_kelvin, to_kelvin_quantity, from_kelvin_quantity  # pylint: disable=import-outside-toplevel
         if "celsius" in rep:
